@@ -11,4 +11,4 @@ Definition drv_quotrem := Z.quotrem.
 Extraction "fsmodel.ml" drv_add drv_mul drv_opp drv_quotrem
   run_c20_split run_c20_main run_c20_patch
   run_c05 run_c15_inline run_c15_hist run_c14 run_c13 run_c04 run_c04_ddl run_c03 run_c07_code run_c07_sqlstate
-  run_c08_quote run_c08_sflex run_c08_duckgen run_c08_ducklex run_c08_sfgen run_c08_bind run_c16_split run_c17_ts run_c06_type run_c06_table run_c01 run_c12 run_c12_prefix run_c02_norm run_c02_eq run_c09 run_c19 run_c18 run_c11 run_c11_oc run_c10 run_c10_cal.
+  run_c08_quote run_c08_sflex run_c08_duckgen run_c08_ducklex run_c08_sfgen run_c08_bind run_c16_split run_c17_ts run_c06_type run_c06_table run_c01 run_c12 run_c12_prefix run_c02_norm run_c02_eq run_c09 run_c19 run_c18 run_c11 run_c11_oc run_c10 run_c10_cal run_c09_types run_c09_arms.
